@@ -116,6 +116,15 @@ pred ExitOK(p *Parser, s stateFn) =
   && (s == fn("apc") ==> isbound(p.exit, "apcUnhook", p))
   && ((s != fn("oscString") && s != fn("dcsPassthrough") && s != fn("apc")) ==> p.exit == nil)
 
+-- ST suppression flag (documented: "we turn ignoreST on when we enter a state that can only be exited by ST").
+pred StringState(s stateFn) =
+     s == fn("oscString") || s == fn("dcsPassthrough") || s == fn("dcsIgnore") || s == fn("sosPm") || s == fn("apc")
+-- outside string states (and outside `escape`, where it is consulted) the flag is off: an ST-looking
+-- Alt+\ typed after a string that ended by BEL/CAN/SUB must not be swallowed
+pred IgnLo(p *Parser, s stateFn) = !(StringState(s) || s == fn("escape")) ==> !p.ignoreST
+-- inside a string state the flag is on, so that the terminating ST is suppressed
+pred IgnHi(p *Parser, s stateFn) = StringState(s) ==> p.ignoreST
+
 pred StateOK(s stateFn) =
      s == fn("ground") || s == fn("escape") || s == fn("escapeIntermediate") || s == fn("ss3")
   || s == fn("csiEntry") || s == fn("csiParam") || s == fn("csiIntermediate") || s == fn("csiIgnore")
@@ -142,6 +151,8 @@ pred DispatchedESC(p *Parser, r rune) =
   && unbox(logat("seq", old(loglen("seq"))), "ESC").Final == r
 
 func ground(r rune, p *Parser) stateFn
+  requires ign: IgnLo(p, fn("ground"))
+  ensures C02_ignlo: IgnLo(p, result)
   requires exit: ExitOK(p, fn("ground"))
   ensures C02_exit: ExitOK(p, result) && (result == nil || StateOK(result))
   requires p: p != nil
@@ -150,6 +161,8 @@ func ground(r rune, p *Parser) stateFn
                         && typeis(logat("seq", old(loglen("seq"))), "Print"))
 
 func csiEntry(r rune, p *Parser) stateFn
+  requires ign: IgnLo(p, fn("csiEntry"))
+  ensures C02_ignlo: IgnLo(p, result)
   requires exit: ExitOK(p, fn("csiEntry"))
   ensures C02_exit: ExitOK(p, result) && (result == nil || StateOK(result))
   requires p: p != nil && ParamBytes(p) && Sep(p)
@@ -162,6 +175,8 @@ func csiEntry(r rune, p *Parser) stateFn
   ensures C02_bytes:   ParamBytes(p)
 
 func csiParam(r rune, p *Parser) stateFn
+  requires ign: IgnLo(p, fn("csiParam"))
+  ensures C02_ignlo: IgnLo(p, result)
   requires exit: ExitOK(p, fn("csiParam"))
   ensures C02_exit: ExitOK(p, result) && (result == nil || StateOK(result))
   requires p: p != nil && ParamBytes(p) && Sep(p)
@@ -174,6 +189,8 @@ func csiParam(r rune, p *Parser) stateFn
   ensures C02_bytes:   ParamBytes(p)
 
 func csiIntermediate(r rune, p *Parser) stateFn
+  requires ign: IgnLo(p, fn("csiIntermediate"))
+  ensures C02_ignlo: IgnLo(p, result)
   requires exit: ExitOK(p, fn("csiIntermediate"))
   ensures C02_exit: ExitOK(p, result) && (result == nil || StateOK(result))
   requires p: p != nil && ParamBytes(p) && Sep(p)
@@ -185,6 +202,8 @@ func csiIntermediate(r rune, p *Parser) stateFn
   ensures C02_bytes:   ParamBytes(p)
 
 func csiIgnore(r rune, p *Parser) stateFn
+  requires ign: IgnLo(p, fn("csiIgnore"))
+  ensures C02_ignlo: IgnLo(p, result)
   requires exit: ExitOK(p, fn("csiIgnore"))
   ensures C02_exit: ExitOK(p, result) && (result == nil || StateOK(result))
   requires p: p != nil
@@ -193,6 +212,8 @@ func csiIgnore(r rune, p *Parser) stateFn
   ensures C02_final:   (64 <= r && r <= 126) ==> (result == fn("ground") && Ignored(p))
 
 func escapeIntermediate(r rune, p *Parser) stateFn
+  requires ign: IgnLo(p, fn("escapeIntermediate"))
+  ensures C02_ignlo: IgnLo(p, result)
   requires exit: ExitOK(p, fn("escapeIntermediate"))
   ensures C02_exit: ExitOK(p, result) && (result == nil || StateOK(result))
   requires p: p != nil
@@ -202,6 +223,8 @@ func escapeIntermediate(r rune, p *Parser) stateFn
   ensures C02_final:   (48 <= r && r <= 126) ==> (result == fn("ground") && DispatchedESC(p, r))
 
 func ss3(r rune, p *Parser) stateFn
+  requires ign: IgnLo(p, fn("ss3"))
+  ensures C02_ignlo: IgnLo(p, result)
   requires exit: ExitOK(p, fn("ss3"))
   ensures C02_exit: ExitOK(p, result) && (result == nil || StateOK(result))
   requires p: p != nil
@@ -211,6 +234,8 @@ func ss3(r rune, p *Parser) stateFn
                           && logat("seq", old(loglen("seq"))) == boxed(SS3(r)) && Kept(p))
 
 func dcsEntry(r rune, p *Parser) stateFn
+  requires ign: IgnLo(p, fn("dcsEntry"))
+  ensures C02_ignlo: IgnLo(p, result)
   requires exit: ExitOK(p, fn("dcsEntry"))
   ensures C02_exit: ExitOK(p, result) && (result == nil || StateOK(result))
   requires p: p != nil
@@ -222,6 +247,8 @@ func dcsEntry(r rune, p *Parser) stateFn
   ensures C02_final:   (64 <= r && r <= 126) ==> (result == fn("dcsPassthrough"))
 
 func dcsParam(r rune, p *Parser) stateFn
+  requires ign: IgnLo(p, fn("dcsParam"))
+  ensures C02_ignlo: IgnLo(p, result)
   requires exit: ExitOK(p, fn("dcsParam"))
   ensures C02_exit: ExitOK(p, result) && (result == nil || StateOK(result))
   requires p: p != nil
@@ -232,6 +259,8 @@ func dcsParam(r rune, p *Parser) stateFn
   ensures C02_final:   (64 <= r && r <= 126) ==> (result == fn("dcsPassthrough"))
 
 func dcsIntermediate(r rune, p *Parser) stateFn
+  requires ign: IgnLo(p, fn("dcsIntermediate"))
+  ensures C02_ignlo: IgnLo(p, result)
   requires exit: ExitOK(p, fn("dcsIntermediate"))
   ensures C02_exit: ExitOK(p, result) && (result == nil || StateOK(result))
   requires p: p != nil
@@ -241,12 +270,16 @@ func dcsIntermediate(r rune, p *Parser) stateFn
   ensures C02_final:   (64 <= r && r <= 126) ==> (result == fn("dcsPassthrough"))
 
 func dcsIgnore(r rune, p *Parser) stateFn
+  requires ign: IgnLo(p, fn("dcsIgnore"))
+  ensures C02_ignlo: IgnLo(p, result)
   requires exit: ExitOK(p, fn("dcsIgnore"))
   ensures C02_exit: ExitOK(p, result) && (result == nil || StateOK(result))
   requires p: p != nil
   ensures C02_all:     (0 <= r && r <= 127) ==> (result == fn("dcsIgnore") && Ignored(p))
 
 func dcsPassthrough(r rune, p *Parser) stateFn
+  requires ign: IgnLo(p, fn("dcsPassthrough"))
+  ensures C02_ignlo: IgnLo(p, result)
   requires exit: ExitOK(p, fn("dcsPassthrough"))
   ensures C02_exit: ExitOK(p, result) && (result == nil || StateOK(result))
   requires p: p != nil
@@ -255,12 +288,16 @@ func dcsPassthrough(r rune, p *Parser) stateFn
   ensures C02_del:     r == 127 ==> (result == fn("dcsPassthrough") && NoLog(p) && len(p.dcs.Data) == old(len(p.dcs.Data)))
 
 func sosPm(r rune, p *Parser) stateFn
+  requires ign: IgnLo(p, fn("sosPm"))
+  ensures C02_ignlo: IgnLo(p, result)
   requires exit: ExitOK(p, fn("sosPm"))
   ensures C02_exit: ExitOK(p, result) && (result == nil || StateOK(result))
   requires p: p != nil
   ensures C02_all:     (0 <= r && r <= 127) ==> (result == fn("sosPm") && Ignored(p))
 
 func apc(r rune, p *Parser) stateFn
+  requires ign: IgnLo(p, fn("apc"))
+  ensures C02_ignlo: IgnLo(p, result)
   requires exit: ExitOK(p, fn("apc"))
   ensures C02_exit: ExitOK(p, result) && (result == nil || StateOK(result))
   requires p: p != nil
@@ -278,6 +315,8 @@ func (p *Parser) oscStart()
   modifies p.exit
 
 func oscString(r rune, p *Parser) stateFn
+  requires ign: IgnLo(p, fn("oscString"))
+  ensures C02_ignlo: IgnLo(p, result)
   requires p: p != nil
   requires exit: ExitOK(p, fn("oscString"))
   ensures C02_exit: ExitOK(p, result) && StateOK(result)
@@ -289,6 +328,8 @@ func oscString(r rune, p *Parser) stateFn
                        && len(p.oscData) == old(len(p.oscData)) + 1 && p.oscData[len(p.oscData)-1] == r)
 
 func escape(r rune, p *Parser) stateFn
+  requires ign: IgnLo(p, fn("escape"))
+  ensures C02_ignlo: IgnLo(p, result)
   requires p: p != nil
   requires exit: ExitOK(p, fn("escape"))
   ensures C02_exit:  ExitOK(p, result) && StateOK(result)
@@ -304,11 +345,13 @@ func escape(r rune, p *Parser) stateFn
   ensures C02_csi:   r == 91 ==> (result == fn("csiEntry") && NoLog(p) && len(p.intermediate) == 0 && len(p.params) == 0)
   ensures C02_osc:   r == 93 ==> (result == fn("oscString") && Ignored(p))
   ensures C02_ign:   !p.ignoreST
+  ensures C02_ignhi: IgnHi(p, result)
 
 -- anywhere: CAN, SUB, ESC and end of input leave any state, running the exit action exactly once.
 func anywhere(r rune, p *Parser) stateFn
-  requires p: p != nil && StateOK(p.state) && ExitOK(p, p.state) && ParamBytes(p) && Sep(p)
+  requires p: p != nil && StateOK(p.state) && ExitOK(p, p.state) && ParamBytes(p) && Sep(p) && IgnLo(p, p.state)
   ensures C02_exit:   ExitOK(p, result) && (result == nil || StateOK(result))
+  ensures C02_ignlo:  result != nil ==> IgnLo(p, result)
   ensures C02_eof:    r == -1 ==> (result == nil && loglen("seq") == old(loglen("seq")) + (old(p.exit) != nil ? 1 : 0))
   ensures C02_cancel: (r == 24 || r == 26) ==> (result == fn("ground")
                          && loglen("seq") == old(loglen("seq")) + (old(p.exit) != nil ? 2 : 1)
